@@ -178,7 +178,7 @@ class CloneCheck:
 
     def ensures_one_violation_per_reportable_clone_in_document_order(self, context, result):
         return implies(analyzed(context, self._config_override) and self._analyzer.tree_sitter_available
-                       and rust_root(context.file_content) is not None,
+                       and rust_root(context.file_content or "") is not None,
                        result == [clone_violation(call, reported_path(context))
-                                  for call in collect_clone(rust_root(context.file_content), context.file_content)
+                                  for call in collect_clone(rust_root(context.file_content or ""), context.file_content or "")
                                   if not skipped(call, self._config_override)])
